@@ -15,7 +15,8 @@ def main():
                 "connective and a non-empty bag; distinct by (condition, domains, selection).")
     ctx.run_tlc("EQLCore", "EQLCore_mc_logic_q.cfg", expect="ok", seed=ctx.seed + 1)
     fams = [("logic", "EQLCore_gen_logic.cfg", 3000), ("logic6", "EQLCore_gen_logic6.cfg" if thorough else "EQLCore_gen_logic6_q.cfg", 400),
-            ("access", "EQLCore_gen_access.cfg" if thorough else "EQLCore_gen_access_q.cfg", 400)]
+            ("access", "EQLCore_gen_access.cfg" if thorough else "EQLCore_gen_access_q.cfg", 400),
+            ("poset", "EQLCore_gen_poset.cfg" if thorough else "EQLCore_gen_poset_q.cfg", 350)]
     cases = []
     for fam, cfg, minimum in fams:
         for i, c in enumerate(conditions(ctx, cfg, minimum)):
@@ -24,6 +25,8 @@ def main():
             c["variant"] = i % 6
             c["family"] = fam
             c["c02"] = (len(cases) % 2 == 0)
+            # selected attribute expressions are C01's business (row consistency, finding F02)
+            c["cases"] = [cs for cs in c["cases"] if "x.a" not in cs["sel"]]
             for cs in c["cases"]:
                 cs["n"] = sum(k for _, k in cs["bag"])
             cases.append(c)
